@@ -46,7 +46,8 @@ def _gen_metrics(rng, tier, i):
     cn, segs = _case(rng, tier)
     return dict(cnarr=cn, segarr=segs, loc=[s for s in _LOC if rng.random() < 0.7] or ["mean"],
                 spread=[s for s in _SPREAD if rng.random() < 0.7], interval=[s for s in ("ci", "pi") if rng.random() < 0.8],
-                alpha=rng.choice([0.05, 0.1, 0.32, 0.5]), bootstraps=rng.choice([20, 100]))
+                alpha=rng.choice([0.05, 0.1, 0.32, 0.5]), bootstraps=rng.choice([20, 100]), smoothed=rng.random() < 0.4,
+                rng_states=(rng.randrange(10 ** 6), rng.randrange(10 ** 6)))
 
 
 _gen_metrics.__doc__ = _case.__doc__ + "; every subset of statistics, alpha in (0,1), bootstraps"
@@ -56,8 +57,14 @@ def _call_metrics(fn, a):
     import warnings
     warnings.simplefilter("ignore")
     from cnvlib import segmetrics
-    r1 = segmetrics.do_segmetrics(a["cnarr"], a["segarr"], a["loc"], a["spread"], a["interval"], a["alpha"], a["bootstraps"])
-    r2 = segmetrics.do_segmetrics(a["cnarr"], a["segarr"], a["loc"], a["spread"], a["interval"], a["alpha"], a["bootstraps"])
+    import numpy as np
+    np.random.seed(a["rng_states"][0])
+    r1 = segmetrics.do_segmetrics(a["cnarr"], a["segarr"], a["loc"], a["spread"], a["interval"], a["alpha"], a["bootstraps"],
+                                  a["smoothed"])
+    np.random.seed(a["rng_states"][1])
+    np.random.random(7)
+    r2 = segmetrics.do_segmetrics(a["cnarr"], a["segarr"], a["loc"], a["spread"], a["interval"], a["alpha"], a["bootstraps"],
+                                  a["smoothed"])
     return r1, r2
 
 
@@ -117,7 +124,7 @@ def _chk_metrics(args, res, old):
                 return "pi_lo <= median <= pi_hi violated: %r %r %r" % (lo, float(np.median(x)), hi)
         if "ci" in old["interval"] and len(x):
             lo, hi = float(row["ci_lo"]), float(row["ci_hi"])
-            if not (lo <= hi and x.min() - 1e-12 <= lo and hi <= x.max() + 1e-12):
+            if not (lo <= hi and (old["smoothed"] or (x.min() - 1e-12 <= lo and hi <= x.max() + 1e-12))):
                 return "bootstrap CI (%r, %r) not ordered inside the bins' range [%r, %r]" % (lo, hi, x.min(), x.max())
 
 
